@@ -551,14 +551,9 @@ where
         // So we must push the same item to `setBuf` with the deletion flag.
         // This ensures that if a set is followed by a delete, it will be
         // applied in the correct order.
-        self.insert_buf_tx
-            .try_send(Item::delete(index, conflict))
-            .map_err(|e| {
-                CacheError::ChannelError(format!(
-                    "failed to send message to the insert buffer: {}",
-                    &e
-                ))
-            })?;
+        // The marker must not be lost, so wait for room in the insert buffer (as Ristretto
+        // and `AsyncCache` do); a disconnected buffer means the cache has been closed.
+        let _ = self.insert_buf_tx.send(Item::delete(index, conflict));
 
         Ok(())
     }
